@@ -136,6 +136,60 @@ FocusMismatches(w, full, W, fobs) ==
          \cup (IF bad THEN {<<"C16-severe-or-fatal-entry", W>>} ELSE {})
 
 ---------------------------------------------------------------------------
+(* C09: every output format encodes exactly the computed result.  The      *)
+(* harness parses the tool's own output back into canonical row strings    *)
+(* (package formats, trusted) and renders the API result of the same run   *)
+(* in the same syntax; here the two are compared as sets, and every format *)
+(* is compared with the first format seen for the same world and options.  *)
+SS(s) == {s[i] : i \in DOMAIN s}
+FormatMismatches(ev, base) ==
+  IF ev.outcome # "ok" THEN {}
+  ELSE LET o == ev.out
+           a == ev.api
+           tag == <<ev.fmt, ev.exposure>>
+       IN (IF o.ok /\ ev.fmtErr = "" THEN {} ELSE {<<"C09-output-not-parseable", tag, o.err, ev.fmtErr>>})
+          \cup (IF SS(o.conn) = SS(a.conn) THEN {}
+                ELSE {<<"C09-connections-differ-from-result", tag, "missing", SS(a.conn) \ SS(o.conn), "extra", SS(o.conn) \ SS(a.conn)>>})
+          \cup (IF ~ev.exposure \/ SS(o.x) = SS(a.x) THEN {}
+                ELSE {<<"C09-exposure-rows-differ-from-result", tag, "missing", SS(a.x) \ SS(o.x), "extra", SS(o.x) \ SS(a.x)>>})
+          \cup (IF ~ev.exposure \/ ev.fmt = "dot" \/ SS(o.xip) = SS(a.xip) THEN {}
+                ELSE {<<"C09-exposure-ip-rows-differ", tag, "missing", SS(a.xip) \ SS(o.xip), "extra", SS(o.xip) \ SS(a.xip)>>})
+          \cup (IF ~ev.exposure \/ ~o.hasUnp \/ SS(o.unprot) = SS(a.unprot) THEN {}
+                ELSE {<<"C09-unprotected-lines-differ", tag, SS(a.unprot), SS(o.unprot)>>})
+          \* all formats yield the same relation
+          \cup (IF base.nil \/ base.exposure # ev.exposure THEN {}
+                ELSE (IF SS(o.conn) = SS(base.out.conn) THEN {} ELSE {<<"C09-formats-disagree", tag, base.fmt>>})
+                     \cup (IF ~ev.exposure \/ SS(o.x) = SS(base.out.x) THEN {} ELSE {<<"C09-formats-disagree-on-exposure", tag, base.fmt>>})
+                     \cup (IF ~ev.exposure \/ ev.fmt = "dot" \/ base.fmt = "dot" \/ SS(o.xrep) = SS(base.out.xrep) THEN {}
+                           ELSE {<<"C09-formats-disagree-on-representative-peers", tag, base.fmt,
+                                   SS(o.xrep) \ SS(base.out.xrep), SS(base.out.xrep) \ SS(o.xrep)>>}))
+
+DiffFormatMismatches(ev) ==
+  IF ev.outcome # "ok" THEN {}
+  ELSE LET o == ev.out
+           a == ev.api
+           want == IF ev.fmt = "dot" THEN SS(a.rowsNoInfo) ELSE SS(a.rows)
+       IN (IF o.ok THEN {} ELSE {<<"C09-diff-output-not-parseable", ev.fmt, o.err>>})
+          \cup (IF SS(o.rows) = want THEN {}
+                ELSE {<<"C09-diff-rows-differ-from-result", ev.fmt, "missing", want \ SS(o.rows), "extra", SS(o.rows) \ want>>})
+          \* (an empty diff prints nothing at all, in every format)
+          \cup (IF ev.fmt # "dot" \/ SS(a.rows) = {} \/ SS(o.unchanged) = SS(a.unchanged) THEN {}
+                ELSE {<<"C09-diff-dot-unchanged-edges-differ", SS(a.unchanged) \ SS(o.unchanged), SS(o.unchanged) \ SS(a.unchanged)>>})
+          \cup (IF ev.fmt # "dot" \/ SS(a.newLost) \subseteq SS(o.nodes) THEN {}
+                ELSE {<<"C09-diff-dot-new-lost-peers-not-marked", SS(a.newLost) \ SS(o.nodes)>>})
+
+---------------------------------------------------------------------------
+(* C08: for a fixed set of resources every command / format gives          *)
+(* byte-identical output on every run and for every layout of the same     *)
+(* documents (order, split over files and directories, List wrapping,      *)
+(* permutation of semantically unordered rule / peer / port lists).        *)
+DeterminismMismatches(ev) ==
+  LET keys == {ev.runs[i].key : i \in DOMAIN ev.runs}
+      hashes(k) == {ev.runs[i].hash : i \in {i \in DOMAIN ev.runs : ev.runs[i].key = k}}
+      layoutsOf(k, h) == {ev.runs[i].layout : i \in {i \in DOMAIN ev.runs : ev.runs[i].key = k /\ ev.runs[i].hash = h}}
+  IN {<<"C08-output-varies", k, {<<h, layoutsOf(k, h)>> : h \in hashes(k)}>> : k \in {k \in keys : Cardinality(hashes(k)) > 1}}
+
+---------------------------------------------------------------------------
 (* C03: eval.  One aggregated query q = [s, d, same, r, msg]: s, d are     *)
 (* <<"w", i, pod>> / <<"a", class, 0>>; r[k][n] is the reply for protocol  *)
 (* ProtoSeq[k] and model port n: 0 false, 1 true, 2 error, 3 inconsistent  *)
